@@ -110,8 +110,42 @@ type cacheRun struct {
 }
 
 type heldMap struct {
-	g, op   int
-	m, snap map[string]string
+	g, op int
+	m     map[cacheKey]string
+	snap  map[string]string
+}
+
+// cacheKey is the key type of the cache under test: a comparable struct, like the
+// (system, name, version) keys a client would use. The two logical keys of a case map to
+// different keys that read the same when printed, so a cache that tells keys apart by
+// anything but the key itself mixes them up.
+type cacheKey struct{ A, B string }
+
+func ck(k string) cacheKey {
+	switch k {
+	case "k1":
+		return cacheKey{"left pad", "1.0"}
+	case "k2":
+		return cacheKey{"left", "pad 1.0"}
+	}
+	return cacheKey{k, ""}
+}
+
+func unck(c cacheKey) string {
+	for _, k := range []string{"k1", "k2"} {
+		if ck(k) == c {
+			return k
+		}
+	}
+	return c.A
+}
+
+func unckMap(m map[cacheKey]string) map[string]string {
+	out := make(map[string]string, len(m))
+	for k, v := range m {
+		out[unck(k)] = v
+	}
+	return out
 }
 
 type parkedFetch struct {
@@ -154,7 +188,7 @@ func (r *cacheRun) settle(cond func() bool) {
 
 func propC16Cache(c c16CacheCase) (ev.Outcome, error) {
 	var o ev.Outcome
-	cache := datasource.NewRequestCache[string, string]()
+	cache := datasource.NewRequestCache[cacheKey, string]()
 	r := &cacheRun{signal: make(chan struct{}, 64), stopReaders: make(chan struct{})}
 	nw := len(c.Workers)
 	next := make([]int, nw)         // next op index per worker
@@ -176,7 +210,7 @@ func propC16Cache(c c16CacheCase) (ev.Outcome, error) {
 			switch op.Kind {
 			case "get":
 				r.rec(hEvent{Kind: "get_start", G: g, Op: opi, Key: op.Key})
-				v, err := cache.Get(op.Key, func() (string, error) {
+				v, err := cache.Get(ck(op.Key), func() (string, error) {
 					val := fmt.Sprintf("v-%d-%d", g, opi)
 					r.rec(hEvent{Kind: "fetch_start", G: g, Op: opi, Key: op.Key})
 					pf := &parkedFetch{g: g, op: opi, key: op.Key, release: make(chan struct{})}
@@ -194,22 +228,22 @@ func propC16Cache(c c16CacheCase) (ev.Outcome, error) {
 				})
 				r.rec(hEvent{Kind: "get_end", G: g, Op: opi, Key: op.Key, Val: v, Err: err != nil})
 			case "setmap":
-				m := map[string]string{}
+				m := map[cacheKey]string{}
 				for _, k := range op.Keys {
-					m[k] = fmt.Sprintf("set-%d-%d-%s", g, opi, k)
+					m[ck(k)] = fmt.Sprintf("set-%d-%d-%s", g, opi, k)
 				}
-				r.rec(hEvent{Kind: "setmap_start", G: g, Op: opi, Keys: op.Keys, Map: maps.Clone(m)})
+				r.rec(hEvent{Kind: "setmap_start", G: g, Op: opi, Keys: op.Keys, Map: unckMap(m)})
 				cache.SetMap(m)
 				r.rec(hEvent{Kind: "setmap_end", G: g, Op: opi})
 				// the caller goes on using its own map: SetMap loads a clone
 				for k := range m {
 					m[k] = "changed-by-the-caller-after-SetMap"
 				}
-				m["added-by-the-caller-after-SetMap"] = "x"
+				m[ck("added-by-the-caller-after-SetMap")] = "x"
 			case "getmap":
 				r.rec(hEvent{Kind: "getmap_start", G: g, Op: opi})
 				m := cache.GetMap()
-				snap := maps.Clone(m)
+				snap := unckMap(m)
 				r.rec(hEvent{Kind: "getmap_end", G: g, Op: opi, Map: snap})
 				// the caller keeps (and keeps reading) the map it was given: it is a snapshot
 				r.mu.Lock()
@@ -307,8 +341,8 @@ func propC16Cache(c c16CacheCase) (ev.Outcome, error) {
 	wg.Wait()
 	// (0) a map returned by GetMap is a snapshot: it does not change after it was returned
 	for _, h := range r.held {
-		if !maps.Equal(h.m, h.snap) {
-			return o, fmt.Errorf("request cache: the map GetMap returned to worker %d (op %d) changed after it was returned: it was %v and is now %v; no sequential order of the calls explains a result that changes afterwards", h.g, h.op, h.snap, h.m)
+		if !maps.Equal(unckMap(h.m), h.snap) {
+			return o, fmt.Errorf("request cache: the map GetMap returned to worker %d (op %d) changed after it was returned: it was %v and is now %v; no sequential order of the calls explains a result that changes afterwards", h.g, h.op, h.snap, unckMap(h.m))
 		}
 	}
 
